@@ -862,7 +862,9 @@ class Evaluator:
             vals = tuple(self._v(a) for a in args[1:])
             if f is None:
                 import hashlib
-                h = hashlib.sha256(repr((args[0], vals)).encode()).digest()
+                # default interpretation: a pseudo-random function of the FULL result width (a 256-bit digest would leave the upper
+                # bits of a 512 / 1024-bit chaining value zero, and digests taken from the tail of the state could never differ)
+                h = hashlib.shake_256(repr((args[0], vals)).encode()).digest((w + 7) // 8 + 1)
                 return int.from_bytes(h, 'little') & M
             return f(*vals) & M
         raise Exception('eval ' + op)
